@@ -9,6 +9,7 @@ pub mod pipeline;
 pub mod htmldecode;
 pub mod html;
 pub mod blockh;
+pub mod inlineh;
 pub mod inline;
 pub mod block;
 pub mod noderender;
@@ -62,6 +63,7 @@ pub fn streams() -> Vec<(&'static str, StreamFn)> {
         ("htmldecode", htmldecode::run as StreamFn),
         ("html", html::run as StreamFn),
         ("blockh", blockh::run as StreamFn),
+        ("inlineh", inlineh::run as StreamFn),
         ("inline", inline::run as StreamFn),
         ("block", block::run as StreamFn),
         ("noderender", noderender::run as StreamFn),
